@@ -670,6 +670,12 @@ func runSpecials(w *c16world, rep *lib.Report) {
 	// two exchanges in flight through the same forwarder: client A stops reading in the middle of a large body
 	// (its k-th write blocks), B's exchange runs to completion meanwhile, then A resumes - each client must
 	// receive exactly its own backend's bytes
+	// (the forwarder is no longer fresh when they meet: 40 ordinary exchanges first, so that whatever it recycles -
+	// copy buffers, writers - has been through a full turn; a replay starts from a fresh forwarder and needs the same)
+	for k := 0; k < 40; k++ {
+		_, dk := w.exchange(okScript.steps(), nil, false)
+		dk()
+	}
 	for _, stallAt := range []int{1, 2, 3} {
 		a := respScript{200, 0, 96 * 1024, "content-length", false, 3}
 		b := respScript{201, 0, 80 * 1024, "chunked", false, 11}
